@@ -79,6 +79,10 @@ class Ctx:
         except AnalysisError as e:
             self.step_aborts.append(str(e))
             return None
+        except (AttributeError, IndexError, KeyError, TypeError, ValueError, StopIteration) as e:
+            # the part met a shape it was not written for (e.g. `.elts` of something that is no tuple any more)
+            self.step_aborts.append(f"{getattr(fn, '__name__', 'part')}: unexpected shape ({type(e).__name__}: {e})")
+            return None
 
     def require(self, cond, msg: str):
         if not cond:
@@ -197,12 +201,14 @@ def run_module(mod, ctx) -> None:
             from checks.common import generic_sweeps
 
             generic_sweeps(ctx)  # every property gets the generic sweeps over its anchor files
-    except AnalysisError as e:
-        ctx.aborted = str(e)
+    except Exception as e:  # noqa: BLE001
+        # an AnalysisError is a part that cannot read the code; any other exception is a check tripping over a shape
+        # it did not expect - both mean "this part decides nothing", neither may turn decided violations into a pass
+        ctx.aborted = str(e) if isinstance(e, AnalysisError) else f"internal error {type(e).__name__}: {e}"
         if not getattr(ctx, "sweeps_done", False):
             from checks.common import generic_sweeps
 
             try:
                 generic_sweeps(ctx)
-            except AnalysisError:
+            except Exception:  # noqa: BLE001
                 pass
